@@ -1104,13 +1104,20 @@ func init() {
 				s.N = d.Pick(1500, 3000)
 				specs = append(specs, s)
 			}
+			for i := 0; i < int(d.Pick(1, 4)); i++ {
+				s := d.NewSpec("resolve", fmt.Sprintf("res-race-%d", i), 200+i, 12)
+				s.N = d.Pick(300, 3000)
+				s.Flavour = "race"
+				specs = append(specs, s)
+			}
 			// element shapes / plugin definitions / global properties that the built-in plugins do not exercise (c15defs.go)
 			for i := 0; i < int(d.Pick(2, 8)); i++ {
 				s := d.NewSpec("defs", fmt.Sprintf("defs-%d", i), 100+i, 12)
 				s.N = d.Pick(3000, 20000)
 				specs = append(specs, s)
 			}
-			d.RunWorkers(specs, 16)
+			outs := d.RunWorkers(specs, 16)
+			d.raceVerdict(outs)
 		},
 	})
 }
